@@ -9,6 +9,7 @@ import MayVerif.Proof.Sync.Mutex.P_wake1
 import MayVerif.Proof.Sync.Mutex.P_wake2
 import MayVerif.Proof.Sync.Mutex.P_wake3
 import MayVerif.Proof.Sync.Mutex.P_w5park
+import MayVerif.Proof.Sync.Mutex.P_i6load
 import MayVerif.Proof.Sync.Mutex.P_w6load
 import MayVerif.Proof.Sync.Mutex.P_w7set
 import MayVerif.Proof.Sync.Mutex.P_w8load
@@ -40,6 +41,7 @@ theorem inv_step (s s' : St) (t : Tid) (e : Env) (h : Inv s) (hs : step s t e = 
   | wake2 w k => exact inv_wake2 n sh pcs t e w k hlt h hpc sh' pc' hts
   | wake3 w k => exact inv_wake3 n sh pcs t e w k hlt h hpc sh' pc' hts
   | w5park b => exact inv_w5park n sh pcs t e b hlt h hpc sh' pc' hts
+  | i6load b => exact inv_i6load n sh pcs t e b hlt h hpc sh' pc' hts
   | w6load b => exact inv_w6load n sh pcs t e b hlt h hpc sh' pc' hts
   | w7set b => exact inv_w7set n sh pcs t e b hlt h hpc sh' pc' hts
   | w8load b => exact inv_w8load n sh pcs t e b hlt h hpc sh' pc' hts
